@@ -5,7 +5,9 @@
 package zzverif
 
 import (
+	"context"
 	"encoding/json"
+	"errors"
 	"fmt"
 	"io/fs"
 	"math"
@@ -181,6 +183,54 @@ func LastRegexpSource() string { return "" }
 // LastRegexpSubject returns, under the engine, the last subject handed to MatchString together
 // with a symbolic pattern or subject; natively "".
 func LastRegexpSubject() string { return "" }
+
+// ---- context bridge: what context.WithCancel / WithValue are replaced by under the engine ----
+
+var errCanceled = errors.New("context canceled")
+
+type CancelCtx struct {
+	parent context.Context
+	done   chan struct{}
+	err    error
+}
+
+func (c *CancelCtx) Done() <-chan struct{}       { return c.done }
+func (c *CancelCtx) Err() error                  { return c.err }
+func (c *CancelCtx) Deadline() (time.Time, bool) { return time.Time{}, false }
+func (c *CancelCtx) Value(k any) any {
+	if c.parent != nil {
+		return c.parent.Value(k)
+	}
+	return nil
+}
+
+// WithCancel: a child context whose Done channel is closed by cancel (cancellation of the
+// parent is not propagated — the harnesses' parents are never cancelled).
+func WithCancel(parent context.Context) (context.Context, context.CancelFunc) {
+	c := &CancelCtx{parent: parent, done: make(chan struct{})}
+	return c, func() {
+		if c.err == nil {
+			c.err = errCanceled
+			close(c.done)
+		}
+	}
+}
+
+type ValueCtx struct {
+	context.Context
+	key, val any
+}
+
+func (c *ValueCtx) Value(k any) any {
+	if c.key == k {
+		return c.val
+	}
+	return c.Context.Value(k)
+}
+
+func WithValue(parent context.Context, key, val any) context.Context {
+	return &ValueCtx{Context: parent, key: key, val: val}
+}
 
 // ---- environment bridge (os.LookupEnv / os.Getenv / os.ReadDir under the engine) ----
 
